@@ -720,6 +720,12 @@ func (v *Protocol) WritePacket(pkt Packet, streamID int) (err error) {
 	m.streamID = uint32(streamID)
 	m.betterCid = pkt.BetterCid()
 
+	// Register the request before write it, because the peer may response
+	// and the reader goroutine may got the response before the write returns.
+	if err = v.onPacketWriting(m, pkt); err != nil {
+		return oe.WithMessage(err, "on writing packet")
+	}
+
 	if err = v.WriteMessage(m); err != nil {
 		return oe.WithMessage(err, "write message")
 	}
@@ -731,7 +737,7 @@ func (v *Protocol) WritePacket(pkt Packet, streamID int) (err error) {
 	return
 }
 
-func (v *Protocol) onPacketWriten(m *Message, pkt Packet) (err error) {
+func (v *Protocol) onPacketWriting(m *Message, pkt Packet) (err error) {
 	var tid amf0.Number
 	var name amf0.String
 
@@ -740,9 +746,6 @@ func (v *Protocol) onPacketWriten(m *Message, pkt Packet) (err error) {
 		tid, name = pkt.TransactionID, pkt.CommandName
 	case *CreateStreamPacket:
 		tid, name = pkt.TransactionID, pkt.CommandName
-	case *SetChunkSize:
-		// The peer uses the new chunk size for the following messages of us.
-		v.output.opt.chunkSize = pkt.ChunkSize
 	}
 
 	if tid > 0 && len(name) > 0 {
@@ -750,6 +753,16 @@ func (v *Protocol) onPacketWriten(m *Message, pkt Packet) (err error) {
 		defer v.input.ltransactions.Unlock()
 
 		v.input.transactions[tid] = name
+	}
+
+	return
+}
+
+func (v *Protocol) onPacketWriten(m *Message, pkt Packet) (err error) {
+	switch pkt := pkt.(type) {
+	case *SetChunkSize:
+		// The peer uses the new chunk size for the following messages of us.
+		v.output.opt.chunkSize = pkt.ChunkSize
 	}
 
 	return
